@@ -143,6 +143,9 @@ func genBrr(r *Rand, tier string, emit func(string)) {
 			return
 		}
 		_, kv := parseLine(l)
+		if kv["cap"] != "" {
+			return
+		}
 		n := len(kv["in"]) / 2
 		if kv["in"] == "-" {
 			n = 0
